@@ -315,6 +315,7 @@ class C13(Check):
             '(unheaded / headed / other header order / other names / sparse keyed by name or by column number / the same table for the Categorical ones) and to table 1 again, '
             'and after every application every access of the full alphabet on every output row is compared with the eager model of that table.  '
             'PLUS openml cases = OpenmlSource (data id / task id, drop_missing on / off) served from a memory cacher with a dense and a sparse ARFF dataset holding a row identifier, an ignored, a string, numeric and nominal features and a missing value, the target being each column in turn; every access on every row it yields is compared with the eager table (ignored columns and, if asked, rows with missing values removed, target selected).  '
+            'PLUS reader cases = ONE ArffReader object reads lazy file 1 and then lazy file 2 (every ordered pair of 10 files: dense / sparse, comma / TAB separated, every quote kind, special cells, openml-like) x which rows of file 1 are first accessed before the second read (none / the first / all) x whether the remaining rows of file 1 or the rows of file 2 are accessed first; every access on every row of both tables and of file 1 read a third time is compared with the eager table of its own file.  '
             'PLUS cross-row order cases = for every lazy file (ARFF dense / sparse incl. a 4-line file whose lines have no quote, both quote kinds, single quotes, double quotes; LazyDense / LazySparse) EVERY order of first-accessing its rows (by list / by one item / by len), after which every access of the full alphabet on every row is compared with the eager table.  '
             'PLUS feats cases = the feats of every labelled dense pipeline fed to one more stage (EncodeRows list / dict by index / dict by a header that keeps its position, DropRows by index / by such a header), i.e. a stage that sees rows whose header map has more entries than the row has columns.  '
             'A case is non-trivial when the row object is a lazy view (not a list/dict) or an EncodeCatRows stage rewrote it; every re-use case (>=1 stage), every feats case and every order case with a non-natural order is non-trivial')
@@ -333,6 +334,7 @@ class C13(Check):
         'a stage applied to row.feats and naming a column by header may act on that column or leave the table alone (coba keeps no header support on feats); length, positions and every other column are exact',
         'LabelRows given a POSITION on header-keyed sparse rows (sparse ARFF, HeadRows over dicts) selects the header at that position of the file / header map, also through DropRows / EncodeRows stages in between',
         'OpenmlSource: a feature is ignored when is_ignore or is_row_identifier is true or its data_type is neither numeric nor nominal, except the target; only the rows it yields are compared (json descriptions are trusted)',
+        'a reader-case answer is a violation only if a fresh ArffReader gives the eager answer for the same access',
         're-use cases contain only stages whose parameters do not depend on one table\'s cells (no cell-equality row predicates); a re-use answer is a violation only if fresh filter objects give the eager answer for the same access',
         '"RuntimeError: generator ignored GeneratorExit" raised inside LazyDense._enc_all when an iteration is abandoned at a ? / "" cell is reported by CPython as unraisable, changes no value and is only counted',
     ]
@@ -397,6 +399,13 @@ class C13(Check):
                     yield {'openml': ds, 'target': c[0], 'drop_missing': dm}
             for task_type in (1, 2):
                 yield {'openml': ds, 'target': 'y', 'drop_missing': True, 'task': task_type}
+        # ONE ArffReader object on two different lazy files x when the rows of the first file are first accessed
+        files = self.READER_FILES
+        for f1 in files:
+            for f2 in files:
+                for pre in ('none', 'first', 'all'):
+                    for order in ('t1-first', 't2-first'):
+                        yield {'reader': [f1, f2], 'pre': pre, 'post': order}
         # cross-row access orders: every order of first-accessing the rows of one lazy file
         for src in M.ORDER_SOURCES:
             n = len(M.source_model(src).rows)
@@ -434,6 +443,7 @@ class C13(Check):
         try:
             if 'reuse' in case: return self.run_reuse(case, acc)
             if 'order' in case: return self.run_order(case, acc)
+            if 'reader' in case: return self.run_reader(case, acc)
             if 'openml' in case: return self.run_openml(case, acc)
             if 'feats' in case: return self.run_feats(case, acc)
             return self._run_case(case, acc)
@@ -541,6 +551,66 @@ class C13(Check):
                 f'the access {op} gave {got!r}; the eager table (ignored columns {M.openml_ignored(ds, target)} and '
                 f'{"rows with missing values " if dm else "no rows "}removed, target selected) gives {want!r}')
         acc.violation(key, what, case, order=(0, 7, acc._cur[0] if acc._cur else 0))
+
+    # -------------------------------------------------------------- one ArffReader object, two files
+    READER_FILES = ['ad', 'adt', 'aq', 'aq4', 'ae', 'aet', 'as', 'aes', 'od', 'os']
+
+    def run_reader(self, case, acc):
+        (f1, f2), pre, post = case['reader'], case['pre'], case['post']
+        acc.count('reader_cases'); acc.states += 3; acc.traces += 1; acc.mark_nontrivial()
+        t1, t2 = M.source_model(f1), M.source_model(f2)
+
+        def touch(t, rows, which):
+            for r in which:
+                try:
+                    list(rows[r]) if t.kind == 'dense' else dict(rows[r].items())
+                except Exception:   # noqa  (judged below, access by access)
+                    pass
+                acc.transitions += 1
+
+        def compare(t, rows, src, where):
+            if len(rows) != len(t.rows): return (where, src, None, ['build'], 'wrong number of rows', len(rows), len(t.rows))
+            for r in range(len(rows)):
+                for op in ops_for(t, r):
+                    if op[0] == 'other': continue
+                    want = expect(t, r, op)
+                    acc.transitions += 1
+                    try:
+                        got = access(t, r, rows, op); mode = None if same(got, want) else 'wrong value'
+                    except Exception as e:   # noqa
+                        got, mode = repr(e), f'raises {type(e).__name__}'
+                    if mode is None: continue
+                    f_fresh, _ = run_history(Plan(src, []), r, [op])
+                    if f_fresh: continue                       # a fresh reader fails too: the ordinary cases own it
+                    return (where, src, r, op, mode, got, want)
+            return None
+
+        reader = ArffReader()
+        fail = None
+        try:
+            rows1 = list(reader.filter(M.source_raw(f1)[1]))
+            n1 = len(rows1)
+            early = [] if pre == 'none' else [0] if pre == 'first' else list(range(n1))
+            touch(t1, rows1, early)                            # rows of the first file accessed BEFORE the reader is used again
+            rows2 = list(reader.filter(M.source_raw(f2)[1]))
+            late = [r for r in range(n1) if r not in early]
+            if post == 't1-first':
+                touch(t1, rows1, late); touch(t2, rows2, range(len(rows2)))
+            else:
+                touch(t2, rows2, range(len(rows2))); touch(t1, rows1, late)
+            fail = compare(t1, rows1, f1, 'first file') or compare(t2, rows2, f2, 'second file')
+            if fail is None:
+                rows3 = list(reader.filter(M.source_raw(f1)[1]))
+                fail = compare(t1, rows3, f1, 'first file read again')
+        except Exception as e:   # noqa
+            fail = ('reader', f1, None, ['build'], f'raises {type(e).__name__}', repr(e), 'rows')
+        acc.outcome(('reader', f1, f2, fail is None))
+        if fail is None: return
+        where, src, r, op, mode, got, want = fail
+        key = f're-used ArffReader object|{FAMILY[op[0]]}: {mode} on the {where}|{SRC_CLASS[f1]} then {SRC_CLASS[f2]}'
+        what = (f'one ArffReader object read {M.SRC_KIND[f1]} and then {M.SRC_KIND[f2]} (rows of the first file first accessed before the second read: {pre}; '
+                f'afterwards {post}): {where}, row {r}: the access {op} gave {got!r}; the eager table (and a fresh reader) give {want!r}')
+        acc.violation(key, what, case, order=(0, 6, acc._cur[0] if acc._cur else 0))
 
     # -------------------------------------------------------------- cross-row access orders of one lazy file
     def run_order(self, case, acc):
